@@ -1,5 +1,6 @@
 import RtenVerif.Lemmas.PlanCache
 import RtenVerif.Props.C26
+import RtenVerif.Props.C02
 /-!
 # C22 — Concurrent use of one model gives sequential results
 
@@ -19,9 +20,12 @@ schedule is an arbitrary list of thread indices.
 * `c22_call_spec` (T2): for **every** schedule, every finished call's outcome satisfies `Spec`,
   a relation that mentions only the call's own arguments: the cache content is unobservable up
   to the choice among valid plans.  `c22_errors_sequential`: an error outcome is *exactly* the
-  outcome of the same call made alone on a fresh model.  `c22_equals_sequential`: under the
-  executor's plan-independence (any two valid plans for one request give the same result — the
-  C02/C25 theorem, here a hypothesis) every outcome equals the sequential one.
+  outcome of the same call made alone on a fresh model.  `c22_values_sequential`: on graphs
+  with unique producers the plan a call holds and the plan it would get alone give the same
+  output values in C02's value-carrying model of `run_plan` (both succeed with equal outputs or
+  both fail) — by C02's `c02_plan_independent_iff`; the only remaining hypothesis is planner
+  completeness up to order (`PlannerComplete`, not yet a theorem of C03).  Equality of *failing*
+  outcomes is false in general (`Executor.c02_error_depends_on_order`).
 * `c22_progress`, `c22_all_done` (T3): a thread's step never waits for another thread: the
   critical section contains no blocking call and its only loop terminates (`c03_terminates`);
   after any schedule in which a thread was scheduled twice, it is done — no deadlock through
@@ -293,47 +297,42 @@ theorem c22_errors_sequential {m : Mdl} {c : Option CachedPlan} (hc : Reachable 
       rw [← ho] at hcl
       rcases herr with h | ⟨e, h⟩ <;> (subst h; cases hcl)
 
-/-- Executor plan-independence for the call `k` (the C02/C25 theorem, a hypothesis here): any
-two valid plans for `k`'s request make `run_plan` return the same thing. -/
-def PlanIndependent (m : Mdl) (k : Call) : Prop :=
-  ∀ p p', PlanOK m.g false (resolvedNew m.g k.req.ids false) k.req.outs p →
-    PlanOK m.g false (resolvedNew m.g k.req.ids false) k.req.outs p' →
-    runPlan m.g k.opsOk k.req.inputs p k.req.outs = runPlan m.g k.opsOk k.req.inputs p' k.req.outs
-
 /-- Planner completeness for `k`'s request: if a valid plan exists at all, `create_plan` finds
-one (not proved in C03 for graphs with several producers of one value; a hypothesis here). -/
+one.  C03 proves soundness of every planner error (`c03_error_cause`) but not yet this converse
+(it needs unique producers); it stays a hypothesis here. -/
 def PlannerComplete (m : Mdl) (k : Call) : Prop :=
   (∃ p, PlanOK m.g false (resolvedNew m.g k.req.ids false) k.req.outs p) →
     ∃ p', createPlan m.g k.req.ids k.req.outs (cacheOpts false) = .ok p'
 
-/-- **C22.T2, value form** Under the two hypotheses above — both statements about the call's own
-request, neither mentions the cache or other calls — every interleaving gives every call exactly
-the result of making that call alone on a freshly loaded model. -/
-theorem c22_equals_sequential {m : Mdl} {c : Option CachedPlan} (hc : Reachable m c)
-    (calls : List Call) (sched : List Nat) {i : Nat} {k : Call} {o : Outcome}
+/-- **C22.T2, value form** (discharges the former `PlanIndependent` hypothesis by C02's
+`c02_plan_independent_iff`).  Take any schedule of any calls from any reachable cache, and a
+thread that has left the critical section holding `plan` — possibly another call's cached plan
+for a permutation of its ids.  Then the same call made alone on a freshly loaded model plans
+successfully (`PlannerComplete`), with some `p'`, and C02's value-carrying model of `run_plan`
+(`Executor.runPlan`, including in-place execution and reference counting) returns the outputs
+`vals` with the held plan **iff** it returns the same `vals` with `p'`: same outputs on success,
+and both succeed or both fail.  The hypotheses on `ops`/`r` are exactly those of C02's theorem
+(well-formed request, no captures, operator contract, unique producers, the call's ids are the
+supplied inputs).  Full equality of *failing* outcomes is false — which operator error is
+reported depends on the plan order (`Executor.c02_error_depends_on_order`). -/
+theorem c22_values_sequential {V : Type} {ops : Executor.Ops V} {r : Executor.Run V}
+    {m : Mdl} {c : Option CachedPlan} (hc : Reachable m c)
+    (calls : List Call) (sched : List Nat) {i : Nat} {k : Call} {plan : List Nat}
     (hk : calls[i]? = some k)
-    (hd : (execSched .fixed m calls sched (initSys c calls)).pcs[i]? = some (.done o))
-    (hind : PlanIndependent m k) (hcomp : PlannerComplete m k) :
-    runAlone .fixed m k none = o := by
-  have hs := c22_call_spec hc calls sched hk hd
-  unfold Spec at hs
-  unfold runAlone
-  by_cases hp : k.isPartial = true
-  · rw [if_pos hp] at hs ⊢; exact hs.symm
-  · rw [if_neg hp] at hs ⊢
-    rw [run_fst]
-    by_cases hv : validateInputs m k.req.inputs = false
-    · rw [if_pos hv] at hs ⊢; exact hs.symm
-    · rw [if_neg hv] at hs ⊢
-      rw [getCachedPlan_cold]
-      show (match createPlan m.g k.req.ids k.req.outs (cacheOpts false) with
-        | .error e => Outcome.errPlan e
-        | .ok plan => runPlan m.g k.opsOk k.req.inputs plan k.req.outs) = o
-      rcases hs with ⟨e, he, ho⟩ | ⟨plan, _, hok, ho⟩
-      · rw [he, ho]
-      · obtain ⟨p', hp'⟩ := hcomp ⟨plan, hok⟩
-        rw [hp', ho]
-        exact hind p' plan (c03_plan_ok (argsOK_of_createPlan_ok hp') hp') hok
+    (hp : (execSched .fixed m calls sched (initSys c calls)).pcs[i]? = some (.planned plan))
+    (hcomp : PlannerComplete m k)
+    (hg : r.g = m.g) (hwf : Executor.WF r) (hcap : r.g.captures = [])
+    (hct : Executor.Contract ops r.g) (hu : UniqueProducer r.g)
+    (hin : ∀ d ∈ k.req.ids, r.isInput d = true) :
+    ∃ p', createPlan m.g k.req.ids k.req.outs (cacheOpts false) = .ok p' ∧
+      ∀ vals, (Executor.runPlan ops r Executor.nocap plan k.req.outs).outcome = .ok vals ↔
+        (Executor.runPlan ops r Executor.nocap p' k.req.outs).outcome = .ok vals := by
+  obtain ⟨hargs, hok⟩ := c22_hit_plan_valid hc calls sched hk hp
+  obtain ⟨p', hp'⟩ := hcomp ⟨plan, hok⟩
+  have hok' := c03_plan_ok (argsOK_of_createPlan_ok hp') hp'
+  refine ⟨p', hp', fun vals => ?_⟩
+  rw [← hg] at hok hok'
+  exact Executor.c02_plan_independent_iff hwf hcap hct hu hin hargs.1 hok hok' vals
 
 /-! ## T3 -/
 
@@ -437,58 +436,41 @@ example : (execSched .fixed wMdl wCalls [0, 1] (initSys none wCalls)).pcs =
     [.planned [3], .planned [3, 5], .start] := by decide
 example : wCalls.map (fun k => runAlone .fixed wMdl k none) = [.ok, .ok, .okIds [0]] := by decide
 
-/-! ### The hypotheses of `c22_equals_sequential` are satisfiable -/
+/-! ### Non-vacuity of `c22_values_sequential`
 
-def wCall0 : Call := { req := ⟨[(0, wv), (1, wv)], [2]⟩ }
+C02's graph `twoFailing` (`a = F(x)`, `b = G(x)`): thread 0 asks `[x] → [a, b]` and caches the
+plan `[3, 4]`; thread 1 asks `[x] → [b, a]`, hits the cache (same ids, other order) and holds
+`[3, 4]`, whereas alone it would have planned `[4, 3]`.  All hypotheses hold, and both plans give
+thread 1 the same outputs. -/
 
-theorem wNeeded {i : Nat} (h : Needed wGraph [0, 1] [2] i) : i = 3 := by
-  induction h with
-  | root hmem _ hsrc =>
-    simp only [List.mem_singleton] at hmem
-    subst hmem
-    have : getSource wGraph 2 = some (3, { inputs := [some 0, some 1], outputs := [some 2] }) := by decide
-    rw [this] at hsrc
-    injection hsrc with hsrc
-    injection hsrc with h1 _
-    exact h1.symm
-  | @step x d p' xop pop' _ hxop hd hrc _ ih =>
-    subst ih
-    have : getOp wGraph 3 = some { inputs := [some 0, some 1], outputs := [some 2] } := by decide
-    rw [this] at hxop
-    injection hxop with hxop
-    subst hxop
-    have hd' : d ∈ [0, 1] := by simpa [opDeps, opInputs, wGraph] using hd
-    simp only [List.mem_cons, List.not_mem_nil, or_false] at hd'
-    rcases hd' with rfl | rfl <;> simp [rContains] at hrc
+def tMdl : Mdl := { g := Executor.twoFailing }
+def tv : InVal := { dtype := 1, shape := [2] }
+def tCalls : List Call := [{ req := ⟨[(0, tv)], [1, 2]⟩ }, { req := ⟨[(0, tv)], [2, 1]⟩ }]
 
-theorem wPlan_unique {p : List Nat} (h : PlanOK wGraph false (resolvedNew wGraph wCall0.req.ids false) wCall0.req.outs p) :
-    p = [3] := by
-  have hr : resolvedNew wGraph wCall0.req.ids false = [0, 1] := by decide
-  have ho : wCall0.req.outs = [2] := rfl
-  rw [hr, ho] at h
-  have hall : ∀ i ∈ p, i = 3 := fun i hi => wNeeded (h.minimal i hi)
-  have hnd := h.nodup
-  have hout := h.outputs 2 (by simp)
-  match p, hall, hnd, hout with
-  | [], _, _, hout =>
-    exfalso
-    rcases hout with h1 | ⟨h1, _⟩
-    · revert h1; decide
-    · cases h1
-  | [a], hall, _, _ => rw [hall a (by simp)]
-  | a :: b :: rest, hall, hnd, _ =>
-    exfalso
-    have ha := hall a (by simp)
-    have hb := hall b (by simp)
-    subst ha; subst hb
-    simp at hnd
+example : (execSched .fixed tMdl tCalls [0, 1] (initSys none tCalls)).pcs[1]? = some (.planned [3, 4]) := by
+  decide
+example : createPlan tMdl.g [0] [2, 1] (cacheOpts false) = .ok [4, 3] := by decide
 
-/-- The hypotheses of `c22_equals_sequential` are met by a concrete call: the only valid plan for
-`[a,b] → [y]` on `wGraph` is `[3]`. -/
-example : PlanIndependent wMdl wCall0 := by
-  intro p p' hp hp'
-  rw [wPlan_unique hp, wPlan_unique hp']
+theorem twoFailing_unique : UniqueProducer Executor.twoFailing := by
+  intro p op v hop hv
+  have hi : p < 5 := by
+    unfold getOp getNode at hop
+    by_cases hi : p < 5
+    · exact hi
+    · have : Executor.twoFailing.nodes[p]? = none := by
+        apply List.getElem?_eq_none; simp [Executor.twoFailing]; omega
+      rw [this] at hop; simp at hop
+  have : p = 0 ∨ p = 1 ∨ p = 2 ∨ p = 3 ∨ p = 4 := by omega
+  rcases this with rfl | rfl | rfl | rfl | rfl <;>
+    simp [getOp, getNode, Executor.twoFailing] at hop <;> subst hop <;>
+    simp [opOutputs] at hv <;> subst hv <;> decide
 
-example : PlannerComplete wMdl wCall0 := fun _ => ⟨[3], by decide⟩
+example : ∃ p', createPlan tMdl.g [0] [2, 1] (cacheOpts false) = .ok p' ∧
+    ∀ vals, (Executor.runPlan Executor.okOps Executor.twoRun Executor.nocap [3, 4] [2, 1]).outcome = .ok vals ↔
+      (Executor.runPlan Executor.okOps Executor.twoRun Executor.nocap p' [2, 1]).outcome = .ok vals :=
+  c22_values_sequential (m := tMdl) (k := { req := ⟨[(0, tv)], [2, 1]⟩ }) Reachable.cold tCalls [0, 1]
+    (i := 1) (by decide) (by decide) (fun _ => ⟨[4, 3], by decide⟩) rfl Executor.twoRun_wf rfl
+    ⟨fun _ => List.nodup_nil, fun _ h => absurd rfl h, fun _ _ _ _ _ _ _ _ _ => rfl⟩
+    twoFailing_unique (by intro d hd; simp [Req.ids] at hd; subst hd; rfl)
 
 end RtenVerif.PlanCache
